@@ -141,11 +141,103 @@ def _splice(caller_raw, b, callee_raw):
                     propagates = True
     if propagates:
         caller_raw.setdefault("err_ret_locals", []).append(loff)
+    # by-reference arguments: `helper(&mut self.field)` - inside the helper `*param` IS that place.  Rewrite the
+    # callee's derefs of such a parameter to the place itself so that field stores / reads stay visible as such.
+    subst = {}
+    for i, a in enumerate(t["args"]):
+        if a.get("k") in ("cp", "mv") and not a["pl"]["p"]:
+            src = _single_ref_def(caller_raw, a["pl"]["l"], boff)
+            if src is not None and not _assigned_elsewhere(callee_raw, 1 + i):
+                subst[loff + 1 + i] = src
+    if subst:
+        for bi in range(boff, boff + len(callee_raw["blocks"])):
+            _subst_derefs(caller_raw["blocks"][bi], subst)
     # argument passing
     for i, a in enumerate(t["args"]):
         caller_raw["blocks"][b]["stmts"].append({"s": "assign", "lhs": {"l": loff + 1 + i, "p": []}, "rhs": {"rv": "use", "a": copy.deepcopy(a)},
                                                  "span": span, "macros": []})
     caller_raw["blocks"][b]["term"] = {"t": "goto", "target": boff, "span": span}
+
+
+def _single_ref_def(raw, l, upto):
+    """place P if local l is defined exactly once, by `l = &P` / `&mut P` / a reborrow chain of such, in the caller's own blocks"""
+    for _ in range(4):
+        defs = []
+        for bi, blk in enumerate(raw["blocks"][:upto]):
+            if blk is None:
+                continue
+            for st in blk["stmts"]:
+                if st["s"] == "assign" and st["lhs"]["l"] == l and not st["lhs"]["p"]:
+                    defs.append(st)
+            tt = blk["term"]
+            if tt is not None and tt["t"] == "call" and tt["dest"]["l"] == l:
+                return None
+        if len(defs) != 1 or defs[0]["rhs"]["rv"] != "ref":
+            return None
+        pl = defs[0]["rhs"]["pl"]
+        if pl["p"] == ["*"]:
+            l = pl["l"]            # reborrow `&mut *x`: look at x
+            continue
+        if any(e.startswith("idx:") for e in pl["p"]):
+            return None
+        return copy.deepcopy(pl)
+    return None
+
+
+def _assigned_elsewhere(callee_raw, param):
+    for blk in callee_raw["blocks"]:
+        for st in blk["stmts"]:
+            if st["s"] == "assign" and st["lhs"]["l"] == param and not st["lhs"]["p"]:
+                return True
+        tt = blk["term"]
+        if tt is not None and tt["t"] == "call" and tt["dest"]["l"] == param and not tt["dest"]["p"]:
+            return True
+    return False
+
+
+def _subst_place(pl, subst):
+    if pl["l"] in subst and pl["p"][:1] == ["*"]:
+        src = subst[pl["l"]]
+        return {"l": src["l"], "p": list(src["p"]) + list(pl["p"][1:])}
+    return pl
+
+
+def _subst_op(op, subst):
+    if isinstance(op, dict) and op.get("k") in ("cp", "mv") and "pl" in op:
+        o = dict(op)
+        o["pl"] = _subst_place(op["pl"], subst)
+        return o
+    return op
+
+
+def _subst_derefs(blk, subst):
+    for st in blk["stmts"]:
+        if st["s"] != "assign":
+            continue
+        st["lhs"] = _subst_place(st["lhs"], subst)
+        rv = st["rhs"]
+        k = rv["rv"]
+        if k in ("use", "cast", "un", "repeat"):
+            rv["a"] = _subst_op(rv["a"], subst)
+        elif k in ("ref", "discr", "rawptr"):
+            rv["pl"] = _subst_place(rv["pl"], subst)
+        elif k == "agg":
+            rv["ops"] = [_subst_op(x, subst) for x in rv["ops"]]
+        elif k == "bin":
+            rv["a"] = _subst_op(rv["a"], subst)
+            rv["b"] = _subst_op(rv["b"], subst)
+    t = blk["term"]
+    if t is None:
+        return
+    if t["t"] == "switch":
+        t["discr"] = _subst_op(t["discr"], subst)
+    elif t["t"] == "assert":
+        t["cond"] = _subst_op(t["cond"], subst)
+    elif t["t"] == "drop":
+        t["pl"] = _subst_place(t["pl"], subst)
+    elif t["t"] == "call":
+        t["args"] = [_subst_op(a, subst) for a in t["args"]]
+        t["dest"] = _subst_place(t["dest"], subst)
 
 
 def normalize(prog, protect=(), config="default"):
@@ -619,19 +711,38 @@ def _closure_args(prog, fn, t, b):
     return out
 
 
+ERR_PASSTHROUGH = ("and_then", "map", "inspect", "map_or_else")
+
+
+def _propagates(raw, l, depth=0):
+    """Does an Err held in local `l` end up as the function's own error (`?`, returned, or handed through combinators
+    that pass an Err on unchanged until one of those)?"""
+    if l == 0 or l in raw.get("err_ret_locals", ()):
+        return True
+    if depth > 6:
+        return False
+    for blk in raw["blocks"]:
+        if blk is None or blk["cleanup"]:
+            continue
+        for st in blk["stmts"]:
+            if st["s"] == "assign" and st["rhs"]["rv"] == "use" and st["rhs"]["a"].get("pl", {}).get("l") == l and not st["rhs"]["a"]["pl"]["p"] and not st["lhs"]["p"]:
+                if _propagates(raw, st["lhs"]["l"], depth + 1):
+                    return True
+        tb = blk["term"]
+        if tb is not None and tb["t"] == "call" and tb["args"] and tb["args"][0].get("pl", {}).get("l") == l and not tb["args"][0]["pl"]["p"]:
+            cal = tb.get("callee") or ""
+            if cal.endswith("Try::branch"):
+                return True
+            if cal.startswith(RES + "::") and cal.rsplit("::", 1)[-1] in ERR_PASSTHROUGH and not tb["dest"]["p"]:
+                if _propagates(raw, tb["dest"]["l"], depth + 1):
+                    return True
+    return False
+
+
 def _mark_propagation(raw, blk, t):
     """If the combinator's result is `?`-ed or returned, its synthesized `dest = Err(..)` blocks are error exits."""
     d = t["dest"]
     if d["p"]:
         return
-    T = t["target"]
-    prop = d["l"] == 0 or d["l"] in raw.get("err_ret_locals", ())
-    if not prop and T is not None:
-        tb = raw["blocks"][T]["term"]
-        if tb is not None and tb["t"] == "call" and (tb.get("callee") or "").endswith("Try::branch") and tb["args"] and tb["args"][0].get("pl", {}).get("l") == d["l"]:
-            prop = True
-        for st in raw["blocks"][T]["stmts"][:2]:
-            if st["s"] == "assign" and st["lhs"]["l"] == 0 and not st["lhs"]["p"] and st["rhs"]["rv"] == "use" and st["rhs"]["a"].get("pl", {}).get("l") == d["l"]:
-                prop = True
-    if prop:
+    if _propagates(raw, d["l"]):
         raw.setdefault("err_ret_locals", []).append(d["l"])
